@@ -107,6 +107,12 @@ def run(v, prefixes=("C08",), pid="C08"):
     for k in range(60 if quick else 1200):
         for run in cp.stride_runs(p, rng):
             events.append(cp.compact_event(cp.permuted(run, rng, dup=False)))
+    # subsets of the twelve faces (eleven of them, after the client removed one from a list the API gave it)
+    for k in range(10 if quick else 60):
+        sub = list(faces)
+        for _ in range(rng.choice([1, 1, 2, 5])):
+            sub.pop(rng.randrange(len(sub)))
+        events.append(cp.compact_event(cp.permuted(sub, rng, dup=False), prelude=True))
     if pid == "C08":
         # the world cell together with faces / segments (overlapping ancestors at the very top of the tree)
         for k in range(12 if quick else 60):
